@@ -35,7 +35,7 @@ ASSUMPTIONS = ['merging requires amplitudes.npy, pc_feature_ind.npy, template_fe
 
 def drivers(tier):
     th = tier == 'thorough'
-    return [dict(kind='hyp', name='merges', strategy=G.merge_case(), examples=20000 if th else 3000)]
+    return [dict(kind='hyp', name='merges', strategy=G.merge_case(), examples=60000 if th else 6000)]
 
 
 def _read_simple(path):
